@@ -93,7 +93,8 @@ func (m ReceiverMeta) Reduce(
 func (v ReceiverMeta) RetValsRange() common.ResolvedRange {
 	switch len(v.RetVals) {
 	case 0:
-		return common.ResolvedRange{}
+		// A method without return values has nothing to point at but its own declaration
+		return v.Range
 	case 1:
 		return common.ResolvedRange{
 			StartLine: v.RetVals[0].Range.StartLine,
